@@ -23,6 +23,7 @@ DECIDES += (' [ABSTRACT INTERPRETATION, exact] BF3: on every non-empty span of f
             'exactly the Cox-de Boor polynomials (which sum to one) and basis_function_ders / basis_function_ders_one their exact derivatives for every order 0..degree+1 '
             '(zero above the degree): the routines agree with the recursion and with one another as polynomial identities in the parameter.')
 DECIDES += (' [ABSTRACT INTERPRETATION, exact] BF4: basis_function_one by exact rational values on one unevenly spaced knot vector of every clamped order type, every function, every knot and mid-span point (the last knot taken in the last non-empty span); GD3: every public knot vector setter of the six classes, interpreted on objects built by the real classes, stores valid vectors in their own direction only and rejects - without storing - vectors that are too long, too short, decreasing, or valid for another direction.')
+DECIDES += (' KG2 runs through every public name bound to knotvector.generate (utilities.generate_knot_vector ...) and requires a new list per call (lru_cache modelled); NM2 likewise through the aliases of normalize, on ranges whose images have up to ten decimals; KG3: no emission of a knot is governed by a comparison of a rounded quotient, in generate and its callees.')
 
 
 def site(fi, node=None):
